@@ -15,7 +15,8 @@ RULE = ("Cases: a geometric frequency grid (60-200 points over 0.05-40 Hz) conta
         "log-std curve with local structure, window length (5-600 s, log-uniform), window count (1-400, log-uniform), fn "
         "standard deviation 0.1x-10x the table threshold, a search range (none / one-sided / two-sided, sometimes excluding the "
         "dominant peak) and a verbosity level. Non-trivial = the nine verdicts are neither all pass nor all fail and at least "
-        "seven of them are decidable (margin >= 1e-9, readings agree); distinct by SHA-1 of the case.")
+        "seven of them are decidable (margin >= 1e-9, readings agree); distinct by SHA-1 of the case."
+        ' Limits include inf/1e20/1e300/0/-inf/1e-300; one case in five hands the curves over in descending frequency order.')
 ASSUMPTIONS = [
     "threshold table of the guideline: < 0.2 | 0.2-0.5 | 0.5-1.0 | 1.0-2.0 | > 2.0 Hz: a peak exactly at 0.2 Hz belongs to the second column; at 0.5 and 1.0 Hz (listed in two columns) both columns are accepted, and at exactly 2.0 Hz both the fourth (table) and the fifth (code) column are accepted; reliability iii at exactly 0.5 Hz accepts both limits",
     "open vs closed frequency intervals and evaluation on the range-trimmed vs full curve are both accepted (a verdict is asserted only when all readings agree)",
